@@ -23,6 +23,6 @@ package ramp
 //@ func CalculateRampRate
 //@   props C14 C10
 //@   requires GJclaim == 1 ==> (jitterArg == 0.0 || (jitterConsts(jitterArg) && GJin == GJout))
-//@   modifies nothing
+//@   modifies G12R, G12E
 //@   ensures [runnable] result.1 == nil ==> result.0 != nil && result.0.Rate != nil && result.0.IterationDuration > 0 && result.0.Duration == duration
 //@   ensures [rejected] result.1 != nil ==> result.0 == nil
